@@ -263,6 +263,19 @@ def run(ctx):
             # unguarded arm: an else-branch / separate push must emit a separator when stripping
             ifs = [n for n in sx.walk(a.body) if n.get('k') == 'if' and 'strip_comments' in sq(n['c'])]
             replaced = bool(ifs) and all('e' in n and pp.pushes(n['t']) and pp.pushes(n['e']) for n in ifs)
+        if replaced:
+            # the separator must be a non-empty run of blanks on every path
+            for n in ifs:
+                strip_branch = n['e'] if sq(n['c']).startswith('!') else n['t']
+                lits = [sx.lit_str(x) for x in sx.walk(strip_branch) if x.get('k') == 'lit' and x.get('t') == 'str']
+                r.inst('c:separator-literals', {'separators': lits})
+                bad = [l_ for l_ in lits if l_ == '' or l_.strip(' \t\n\r\x0c') != '']
+                pushes_ = pp.pushes(strip_branch)
+                txtvars = [sx.strip_ref(p_['args'][0]) for p_ in pushes_]
+                if bad or not lits or any(not (sx.is_path(t_) or sx.lit_str(t_)) for t_ in txtvars):
+                    r.fail('%s:strip-separator:Comment' % CRATE, pp.where(n.get('l')),
+                           'under strip_comments the text emitted in place of a comment must be a non-empty run of blanks on every path '
+                           '(found literals %s): an empty separator joins the neighbouring tokens' % lits)
         r.inst('c:comment-under-strip', {'separator_emitted_in_place_of_a_stripped_comment': replaced})
         if not replaced:
             r.fail('%s:strip-joins-tokens:Comment' % CRATE, pp.where(a.line),
